@@ -64,6 +64,30 @@ SITE_FILES = [
 ]
 
 
+SCAN_ROOTS = ["cli/src", "parser/src", "program_analysis/src", "program_structure/src", "circom_algebra/src"]
+
+
+def site_files():
+    """SITE_FILES in their fixed order (the order of Model.Labels.modelled_shapes), followed by EVERY other .rs
+    file of the crates (cli, parser, program_analysis, program_structure, circom_algebra), sorted: a label built in
+    a file the list does not name adds rows to the regenerated table (and breaks label_sites_match_model) instead of
+    going unseen."""
+    out = [f for f in SITE_FILES if os.path.exists(os.path.join(common.REPO, f))]
+    seen = set(out)
+    extra = []
+    for root in SCAN_ROOTS:
+        top = os.path.join(common.REPO, root)
+        for d, dirs, files in os.walk(top):
+            dirs.sort()
+            for f in sorted(files):
+                if f.endswith(".rs"):
+                    rel = os.path.relpath(os.path.join(d, f), common.REPO)
+                    if rel not in seen:
+                        seen.add(rel)
+                        extra.append(rel)
+    return out, sorted(extra)
+
+
 def strip_rust_comments(src):
     out = []
     i = 0
@@ -85,6 +109,15 @@ def strip_rust_comments(src):
             out.append(src[i])
             i += 1
     return "".join(out)
+
+
+def cut_test_modules(src):
+    """removes every `#[cfg(test)] mod <name> { .. }` block (only the block: code after it is still scanned)"""
+    while True:
+        m = re.search(r"#\[cfg\(test\)\]\s*(?:pub\s+)?mod\s+[a-z_0-9]+\s*\{", src)
+        if not m:
+            return src
+        src = src[:m.start()] + src[matching(src, m.end() - 1, "{", "}"):]
 
 
 def matching(src, i, open_c, close_c):
@@ -122,12 +155,16 @@ def norm(e):
     return re.sub(r"\s+", "", e)
 
 
-def classify_location(expr):
+def classify_location(expr, stored=()):
     """How the range of a label is obtained.  Anything that is not a field
     holding a range / a meta's range is `LMadeUp` (arithmetic, literals,
-    ranges built in place, ...)."""
+    ranges built in place, ...).  `stored`: names bound by an enclosing
+    `if let Some((id, location)) = self.f(..)` whose `f` returns only
+    `(<d>.get_file_id(), <d>.get_param_location())` pairs of one stored definition record."""
     e = norm(expr)
     e = re.sub(r"\.clone\(\)$", "", e)
+    if any(e == loc for _, loc in stored):
+        return "LStoredParams"
     if re.fullmatch(r"(self\.)?(file_location|location|primary_location|secondary_location|file_loc)", e):
         return "LRangeField"
     if re.fullmatch(r"(self\.)?[a-z_]+(\.meta\(\))?\.(file_location\(\)|location)", e) or \
@@ -140,12 +177,17 @@ def classify_location(expr):
     return "LMadeUp"
 
 
-def classify_file(expr, guards):
-    """How the file id of a label is obtained: from an enclosing
+def classify_file(expr, guards, stored=(), loc_expr=""):
+    """How the file id of a label is obtained: `LFileStored` = the plain FileID stored in the same definition
+    record as the parameter-list range of the label (see classify_location; only together with that range);
+    otherwise from an enclosing
     `if let Some(<id>) = <source>` guard (possibly file-less meta: guarded), a
     plain FileID field of an error that is only built for a parsed file
     (`LFileKnown`), or an unguarded unwrap of an optional id (`LFileUnwrapped`)."""
     e = norm(expr).lstrip("*")
+    le = re.sub(r"\.clone\(\)$", "", norm(loc_expr))
+    if any(e == fid and le == loc for fid, loc in stored):
+        return "LFileStored"
     for var, source in reversed(guards):
         if e == var:
             return "LFileGuarded"
@@ -157,10 +199,7 @@ def classify_file(expr, guards):
 def scan_file(rel):
     """-> list of (owner, style, range_class, file_class, raw_location, raw_file)"""
     src = strip_rust_comments(open(os.path.join(common.REPO, rel)).read())
-    # cut the test module
-    m = re.search(r"#\[cfg\(test\)\]\s*mod\s+tests", src)
-    if m:
-        src = src[:m.start()]
+    src = cut_test_modules(src)
     sites = []
     owners = [(m.start(), m.group(1)) for m in re.finditer(r"\bimpl(?:<[^>]*>)?\s+(?:[A-Za-z:<>, ]+\s+for\s+)?([A-Za-z0-9_]+)", src)]
     owners += [(m.start(), "fn " + m.group(1)) for m in re.finditer(r"^(?:pub\s+)?fn\s+([a-z_0-9]+)", src, re.M)]
@@ -188,11 +227,38 @@ def scan_file(rel):
                 blk_end = matching(src, g.end() - 1, "{", "}")
                 if blk_end > m.start():
                     guards.append((g.group(1), norm(g.group(2))))
+        # `if let Some((id, location)) = self.f(..) {`: pairs handed out by a helper of the same file
+        stored = []
+        for g in re.finditer(r"if\s+let\s+Some\(\s*\(\s*([a-z_]+)\s*,\s*([a-z_]+)\s*\)\s*\)\s*=\s*self\s*\.\s*([a-z_0-9]+)\s*\([^{]*\{", src):
+            if g.start() < m.start() and matching(src, g.end() - 1, "{", "}") > m.start() and \
+                    returns_stored_param_pairs(src, g.group(3)):
+                stored.append((g.group(1), g.group(2)))
         loc = args[0] if args else ""
         fid = args[1] if len(args) > 1 else ""
-        sites.append((owner + ("." + variant if variant else ""), style, classify_location(loc), classify_file(fid, guards),
-                      norm(loc), norm(fid)))
+        sites.append((owner + ("." + variant if variant else ""), style, classify_location(loc, stored),
+                      classify_file(fid, guards, stored, loc), norm(loc), norm(fid)))
+    # label built without the method-call syntax (`Report::add_primary(&mut r, ..)`): not a known shape
+    for m in re.finditer(r"\bReport\s*::\s*add_(primary|secondary)\b", src):
+        sites.append(("?", m.group(1), "LMadeUp", "LFileUnwrapped", "Report::add_%s" % m.group(1), ""))
     return sites
+
+
+def returns_stored_param_pairs(src, fn):
+    """`fn <fn>` of this file hands out nothing but `(<d>.get_file_id(), <d>.get_param_location())` pairs whose two
+    halves are read from the same record <d> (TemplateData / FunctionData: the file a definition was merged from and
+    the range of its parameter list)."""
+    m = re.search(r"\bfn\s+%s\s*(?:<[^>]*>)?\s*\(" % re.escape(fn), src)
+    if not m:
+        return False
+    brace = src.find("{", matching(src, m.end() - 1, "(", ")"))
+    if brace < 0:
+        return False
+    body = norm(src[brace:matching(src, brace, "{", "}")])
+    good = re.compile(r"\(([a-z_]+)\.get_file_id\(\),([a-z_]+)\.get_param_location\(\)\)")
+    pairs = good.findall(body)
+    if not pairs or any(a != b for a, b in pairs):
+        return False
+    return "," not in good.sub("@", body)          # no other tuple is built in the function
 
 
 def scan_field_fills():
@@ -201,17 +267,16 @@ def scan_field_fills():
     the anchored files, classified the same way (E2 must be a node's range or the parameter
     list range, E1 the same node's optional file id)."""
     fills = []
-    for rel in SITE_FILES + ["program_structure/src/control_flow_graph/unique_vars.rs",
-                             "program_structure/src/control_flow_graph/ssa_impl.rs",
-                             "program_structure/src/intermediate_representation/lifting.rs",
-                             "parser/src/parser_logic.rs", "parser/src/include_logic.rs"]:
+    listed, extra = site_files()
+    first = listed + ["program_structure/src/control_flow_graph/unique_vars.rs",
+                      "program_structure/src/control_flow_graph/ssa_impl.rs",
+                      "program_structure/src/intermediate_representation/lifting.rs",
+                      "parser/src/parser_logic.rs", "parser/src/include_logic.rs"]
+    for rel in first + [f for f in extra if f not in first]:
         path = os.path.join(common.REPO, rel)
         if not os.path.exists(path):
             continue
-        src = strip_rust_comments(open(path).read())
-        m = re.search(r"#\[cfg\(test\)\]\s*mod\s+tests", src)
-        if m:
-            src = src[:m.start()]
+        src = cut_test_modules(strip_rust_comments(open(path).read()))
         for m in re.finditer(r"\b([A-Z][A-Za-z0-9]*(?:::[A-Z][A-Za-z0-9]+)?)\s*\{", src):
             name = m.group(1)
             if not re.search(r"(Warning|Error)", name):
@@ -267,17 +332,21 @@ def gen(ctx):
              "   One row per `add_primary` / `add_secondary` call of the anchored files:",
              "   (file, owner, style, how the range is obtained, how the file id is obtained). *)",
              "Require Import String List.", "Import ListNotations.", "Local Open Scope string_scope.", "",
-             "Inductive range_src := LMetaRange | LRangeField | LMadeUp.",
-             "Inductive file_src := LFileGuarded | LFileKnown | LFileUnwrapped.",
+             "Inductive range_src := LMetaRange | LRangeField | LStoredParams | LMadeUp.",
+             "Inductive file_src := LFileGuarded | LFileKnown | LFileStored | LFileUnwrapped.",
              "Inductive style := Primary | Secondary.",
              "Inductive fill_src := FSameNode | FParserToken | FPassThrough | FLiteral | FOther.", "",
              "Definition label_sites : list (string * string * style * range_src * file_src) := ["]
     rows = []
     raw = []
-    for rel in SITE_FILES:
-        if not os.path.exists(os.path.join(common.REPO, rel)):
-            continue
-        for owner, style, rc, fc, loc, fid in scan_file(rel):
+    listed, extra = site_files()
+    ctx.coverage["label_site_files_scanned"] = len(listed) + len(extra)
+    ctx.coverage["label_site_files_outside_the_fixed_list_with_sites"] = []
+    for rel in listed + extra:
+        found = scan_file(rel)
+        if found and rel in extra:
+            ctx.coverage["label_site_files_outside_the_fixed_list_with_sites"].append(rel)
+        for owner, style, rc, fc, loc, fid in found:
             short = "/".join(rel.split("/")[-2:])[:-3]
             rows.append("  (%s, %s, %s, %s, %s)" % (coq_str(short), coq_str(owner), style.capitalize(), rc, fc))
             raw.append((short, owner, style, rc, fc, loc, fid))
@@ -510,11 +579,82 @@ def inside(inner, outer):
 
 CMP = {"<", ">", "<=", ">="}
 NOT_ARITH = CMP | {"==", "!=", "&&", "||", "var", "num", "call", "?:", "tuple", "anon", "pre!", "pre~"}
+# field_arithmetic.rs `may_overflow`: the arithmetic operators except `\`, `%`, `&`, `|`, `^`
+OVERFLOW_OPS = {"+", "-", "*", "/", "**", "<<", ">>"}
+COMPOUND_OVERFLOW = {"++", "--", "+=", "-=", "*=", "/=", "**=", "<<=", ">>="}
+CURVE_BITS = {"BN254": 254, "BLS12_381": 255, "GOLDILOCKS": 64}
+# codes whose location no other property compares: the construct clause is INSTANCE-level for them (the node the
+# generator recorded as the offending one, not any node of the kind)
+INSTANCE_CODES = {"CS0003", "CS0004", "CS0010", "CS0014", "CS0015", "CS0016", "CS0018"}
 
 
-def allowed_ranges(report, label, spans, src, primary=True):
+# codes built by the constructors that are NOT `guarded_constructor` in Model.Labels (parser errors, sugar errors, merger)
+UNGUARDED_CODES = {"P1000", "TAC01", "TAC02", "T2008"}
+
+
+def strictly_inside(inner, outer):
+    return inner is not outer and inside(inner, outer) and (inner["start"], inner["end"]) != (outer["start"], outer["end"])
+
+
+def outermost(cands, blockers):
+    """the candidates that do not lie inside one of `blockers` (the passes do not descend into a node they report)"""
+    return [c for c in cands if not any(strictly_inside(c, b) for b in blockers)]
+
+
+def def_of(s, spans):
+    ds = [d for d in spans if d["kind"] == "def" and inside(s, d)]
+    return min(ds, key=lambda d: d["end"] - d["start"]) if ds else None
+
+
+def instance_candidates(code, msg, name, spans, curve):
+    """The nodes the generator recorded as the ones a finding of `code` is about.  -> (description, spans)"""
+    exprs = spans_where(spans, ("expr",))
+    if code == "CS0003":
+        cmps = [s for s in exprs if s.get("op") in CMP]
+        return "comparison that is not an operand of another comparison", outermost(cmps, cmps)
+    if code == "CS0004" and "complement" not in msg:
+        ov = [s for s in exprs if s.get("op") in OVERFLOW_OPS]
+        comp = [s for s in spans_where(spans, ("vassign",)) if s.get("vop", "?") in COMPOUND_OVERFLOW | {"?"}]
+        return ("arithmetic expression (+ - * / ** << >>) that is not an operand of another one / compound assignment",
+                outermost(ov, ov + comp) + comp)
+    if code == "CS0010":
+        bits = CURVE_BITS.get(curve, 254)
+        return ("instantiation of `%s` whose size is not a constant below %d" % (name, bits),
+                [s for s in spans_where(spans, ("expr",), callee=name)
+                 if "bits" not in s or s["bits"] is None or s["bits"] >= bits])
+    if code == "CS0014":
+        bits = CURVE_BITS.get(curve, 254)
+        out = []
+        for s in exprs:
+            if s.get("role") in ("lt_input", "n2b_input") and s.get("value") == name:
+                d = def_of(s, spans)
+                inside_d = [t for t in exprs if d is None or inside(t, d)]
+                fed = [t for t in inside_d if t.get("role") == "lt_input" and t.get("value") == name]
+                clean = any(t.get("role") == "n2b_input" and t.get("value") == name and t.get("bits") is not None
+                            and t["bits"] < bits - 1 for t in inside_d)
+                if fed and not clean:
+                    out.append(s)
+        if not any(s.get("role") for s in exprs):
+            return "occurrence of `%s`" % name, spans_where(spans, ("expr",), name)        # spans recorded without roles
+        return "input `%s` of a LessThan (or of a Num2Bits) in a definition that does not bound it" % name, out
+    if code == "CS0015":
+        marked = [s for s in exprs if "top_divisor" in s]
+        if not marked:
+            return "divisor of a `/`", [s for s in exprs if s.get("divisor")]
+        return "non-constant divisor of the top-level `/` of a `<--`", [s for s in marked if s["top_divisor"] is True]
+    if code == "CS0016":
+        return "instantiation of `%s`" % name, spans_where(spans, ("expr",), callee=name)
+    if code == "CS0018":
+        return ("instantiation of `%s` with an output that is not read" % name,
+                [s for s in spans_where(spans, ("expr",), callee=name) if s.get("out_read") is not True])
+    return None
+
+
+def allowed_ranges(report, label, spans, src, primary=True, info=None):
     """-> (description of the construct the message is about, list of allowed (start, end)) or None when
-    there is no predicate for this code/message."""
+    there is no predicate for this code/message.  `info`: {"curve", "rel", "all": {rel: spans}, "order": [rel in
+    file-id order]} for the clauses that need more than the spans of the label's file."""
+    info = info or {}
     code = report["id"]
     msg = report["message"]
     lmsg = label["msg"] or ""
@@ -527,7 +667,7 @@ def allowed_ranges(report, label, spans, src, primary=True):
             if s["start"] is None:
                 continue
             out.append((s["start"], s["end"]))
-            if s["kind"] in ("ceq", "return", "assert"):
+            if s["kind"] in ("ceq", "return", "assert", "log"):
                 if not semi:
                     st, en, _ = lex(src)
                     semi["st"] = sorted(st)
@@ -554,13 +694,12 @@ def allowed_ranges(report, label, spans, src, primary=True):
         name = tick(msg)
         defs = spans_where(spans, ("def",), name)
         return "parameter list of `%s`" % name, rng([p for p in spans_where(spans, ("params",)) if any(inside(p, d) for d in defs)])
-    if code == "CS0003":
-        return "comparison expression", rng([s for s in spans_where(spans, ("expr",)) if s.get("op") in CMP])
-    if code == "CS0004":
-        if "complement" in msg:
-            return "`~` expression", rng(spans_where(spans, ("expr",), op="pre~"))
-        return "arithmetic expression / compound assignment", rng(
-            [s for s in spans_where(spans, ("expr",)) if s.get("op") not in NOT_ARITH] + spans_where(spans, ("vassign",)))
+    if code == "CS0004" and "complement" in msg:
+        return "`~` expression", rng(spans_where(spans, ("expr",), op="pre~"))
+    if code in INSTANCE_CODES and primary:
+        name = base_name(tick(lmsg)) if code == "CS0014" else tick(lmsg)
+        what, cands = instance_candidates(code, msg, name, spans, info.get("curve") or "BN254")
+        return what, rng(cands)
     if code in ("CS0005", "CS0013"):
         name = base_name(tick(lmsg))
         if primary:
@@ -583,24 +722,42 @@ def allowed_ranges(report, label, spans, src, primary=True):
         # (the spans handed in are those of that file): seeded/C04-cross-file-secondary-label
         name = base_name(tick(lmsg))
         return "declaration of the output signal `%s` in the file the label names" % name, rng(spans_where(spans, ("decl",), name, sig=True))
-    if code in ("CS0010", "CS0016", "CS0018"):
-        name = tick(lmsg)
-        return "instantiation of `%s`" % name, rng(spans_where(spans, ("expr",), callee=name))
     if code == "CS0014":
+        # secondary: "`a` is constrained to `8` bits here." = the value handed to a Num2Bits
         name = base_name(tick(lmsg))
+        roled = [s for s in spans_where(spans, ("expr",), name) if s.get("role")]
+        if roled:
+            return "input `%s` of a Num2Bits" % name, rng([s for s in roled if s["role"] == "n2b_input" and s.get("value") == name])
         return "occurrence of `%s`" % name, rng(spans_where(spans, ("expr",), name))
-    if code == "CS0015":
-        return "divisor of a `/`", rng([s for s in spans_where(spans, ("expr",)) if s.get("divisor")])
     if code == "T2003":
         name = tick(msg)
         return "occurrence of `%s`" % name, rng(spans_where(spans, ("expr",), name, op="var") + spans_where(spans, assigning, name))
     if code == "T2008":
+        # two primary labels: the LATER definition of the name (its whole range) and the parameter list of the FIRST
+        # definition of the name, first = lowest file id, then source order (files are merged in the order parsed)
         name = tick(lmsg)
+        order = info.get("order")
+        allsp = info.get("all") or {}
+        rel = info.get("rel")
+        if order and rel in allsp and all(f in allsp for f in order):
+            defs = []
+            for f in order:
+                defs += [(f, d) for d in sorted(spans_where(allsp[f], ("def",), name), key=lambda d: d["start"])]
+            if "first defined" in lmsg:
+                if not defs or defs[0][0] != rel:
+                    return "parameter list of the first definition of `%s` (which is in another file)" % name, []
+                return "parameter list of the first definition of `%s`" % name, rng(
+                    [q for q in spans_where(spans, ("params",)) if inside(q, defs[0][1])])
+            return "a definition of `%s` after the first one" % name, rng([d for f, d in defs[1:] if f == rel])
+        if "first defined" in lmsg:
+            return "parameter list of a definition of `%s`" % name, rng(
+                [q for q in spans_where(spans, ("params",)) if any(inside(q, d) for d in spans_where(spans, ("def",), name))])
         return "definition of `%s`" % name, rng(spans_where(spans, ("def",), name))
     if code in ("TAC01", "TAC02"):
-        return "tuple / anonymous component (or the statement holding it)", rng(
-            [s for s in spans_where(spans, ("expr",)) if s.get("op") in ("tuple", "anon")] +
-            spans_where(spans, ("decl", "massign", "cassign", "assign", "vassign", "return", "assert")))
+        sugar = [s for s in spans_where(spans, ("expr",)) if s.get("op") in ("tuple", "anon")]
+        return "tuple / anonymous component (or the expression / statement holding it)", rng(
+            sugar + [s for s in spans_where(spans, ("expr",)) if any(strictly_inside(a, s) for a in sugar)] +
+            spans_where(spans, ("decl", "massign", "cassign", "assign", "vassign", "return", "assert", "log", "ceq", "cond", "ifstmt")))
     if code == "P1000":
         if msg.startswith("Failed to open file"):
             name = tick(msg)
@@ -717,10 +874,10 @@ def judge_statement_anchors(p, out, prov, stats):
     if not defs:
         return fails
     if any(r["id"] == "T2008" for r in out.get("reports") or []) or _defined_twice(p):
-        # a definition declared twice: which copy survives the merge depends on a hash order (known finding
-        # C17-duplicate-definition-order), and the reports and the SSA dump come from two runs of the harness
-        stats["anchor_projects_skipped_duplicate_definition"] += 1
-        return fails
+        # a definition declared twice: until /repo f1ec9dc the surviving copy depended on a hash order and such projects
+        # were skipped; files are now merged in parse order and the first definition is kept, so they are evaluated
+        # like the others (third audit: 3 seeds, no miss) and only counted
+        stats["anchor_projects_with_duplicate_definition_evaluated"] += 1
     stats["anchor_projects_evaluated"] += 1
     stmts = set()
     for d in defs:
@@ -813,6 +970,9 @@ def brief_spans(p):
         for s in sps:
             b = s.brief() if hasattr(s, "brief") else dict(s)
             b.pop("right", None)
+            if b.get("kind") == "vassign" and hasattr(s, "items"):
+                ops = [x for x in s.items if isinstance(x, str) and (x.endswith("=") or x in ("++", "--"))]
+                b["vop"] = ops[0] if ops else "?"
             lst.append(b)
         out[rel] = lst
     return out
@@ -872,6 +1032,10 @@ def judge_project(p, out, stats, nontrivial):
         stats["injections_that_still_parse"] += 1
     lexed = {}
     exp_stdout, exp_sarif = [], []
+    # files in file-id order (= the order in which they were parsed and are merged)
+    order = [os.path.relpath(lib[i][0], p["dir"]) for i in sorted(lib)]
+    info_base = {"curve": p.get("curve", "BN254"), "all": spans, "order": order}
+    instance_seen = collections.defaultdict(list)       # (rel, code, message, label message) -> [(s, e)]
     for r in out["reports"]:
         stats["reports"] += 1
         stats["code:" + r["id"]] += 1
@@ -911,16 +1075,27 @@ def judge_project(p, out, stats, nontrivial):
                 st, en, unc = lexed[path]
                 tok_ok = (s in st and e in en) or (s == e and (s in st or s == len(src) or (en and s == max(en)))) \
                     or (unc is not None and (s, e) == (unc, unc + 2))
+                # the construct
+                rel = os.path.relpath(path, p["dir"])
+                in_support = rel in spans and any(d.get("support") and d["start"] <= s and e <= d["end"]
+                                                  for d in spans[rel] if d["kind"] == "def")
+                pred = None
+                if rel in spans and not in_support:
+                    pred = allowed_ranges(r, l, spans[rel], src, primary, dict(info_base, rel=rel))
+                if not tok_ok and empty_parens(src, s, e, st, en) and (
+                        in_support or (rel not in spans and r["id"] == "T2008") or (pred is not None and (s, e) in pred[1])):
+                    # the recorded construct is the token-free stretch between `(` and `)`: an empty parameter list
+                    tok_ok = True
+                    stats["labels_on_an_empty_parameter_list"] += 1
                 if not tok_ok:
                     fails.append(dict(where, clause="token-boundary",
                                       why="the label does not start at the start and end at the end of a token of the original text"))
                     bad_report = True
-                # the construct
-                rel = os.path.relpath(path, p["dir"])
-                if rel in spans and any(d.get("support") and d["start"] <= s and e <= d["end"] for d in spans[rel] if d["kind"] == "def"):
+                if in_support:
                     stats["labels_in_support_templates"] += 1     # fixed-text helper templates: no recorded constructs
                 elif rel in spans:
-                    pred = allowed_ranges(r, l, spans[rel], src, primary)
+                    if primary and r["id"] in INSTANCE_CODES:
+                        instance_seen[(rel, r["id"], r["message"], l["msg"])].append((s, e))
                     if pred is None:
                         stats["no_predicate:" + r["id"]] += 1
                     else:
@@ -938,6 +1113,16 @@ def judge_project(p, out, stats, nontrivial):
                                             b"\n" in src[s:e], b"\r\n" in src[:s]))
                 else:
                     stats["labels_in_raw_files"] += 1
+        # hypothesis `one_file` of C04_label_range_and_file_of_one_node, on what is visible of it: the labels of one
+        # report of a guarded constructor (every code but the parser's and the merger's) all name one file
+        if r["id"] not in UNGUARDED_CODES and (r["primary"] or r["secondary"]):
+            stats["one_file_hypothesis_evaluated"] += 1
+            if len({l["file"] for l in r["primary"] + r["secondary"]}) > 1:
+                stats["one_file_hypothesis_unmet"] += 1
+                fails.append({"clause": "one-file-hypothesis", "code": r["id"], "message": r["message"][:200],
+                              "labels": [(l["file"], l["start"], l["end"]) for l in r["primary"] + r["secondary"]],
+                              "why": "hypothesis of C04_label_range_and_file_of_one_node unmet: the labels of one %s report name "
+                                     "several files" % r["id"]})
         # the rendered diagnostic
         if r["render"] is None:
             fails.append({"clause": "render", "code": r["id"], "message": r["message"][:200],
@@ -965,7 +1150,41 @@ def judge_project(p, out, stats, nontrivial):
                 return ("file://" + path.replace('"', ""),) + line_col(src, l["start"]) + line_col(src, l["end"]) + (l["msg"],)
             exp_sarif.append((SARIF_LEVEL[r["level"]], r["id"], r["message"], tuple(region(l) for l in r["primary"]),
                               tuple(region(l) for l in r["secondary"])))
+    fails += judge_instances(p, instance_seen, spans, lib, info_base, stats)
     return fails, exp_stdout, exp_sarif
+
+
+def empty_parens(src, s, e, st, en):
+    """s..e is the stretch from the end of a `(` token to the start of the next token, a `)` (blanks and comments only)"""
+    return s in en and e in st and src[s - 1:s] == b"(" and src[e:e + 1] == b")" and not any(s <= x < e for x in st)
+
+
+def judge_instances(p, instance_seen, spans, lib, info_base, stats):
+    """Instance-level half of the construct clause that membership cannot see: a finding anchored TWICE at one node
+    while another node of the same definition that the generator recorded as offending has none = a label moved onto
+    another instance of the same kind and name.  (Counting findings is not C04's business: nothing is demanded of a
+    definition whose findings are all at distinct nodes.)"""
+    fails = []
+    src_of = {os.path.relpath(path, p["dir"]): src for path, src, _ in lib.values()}
+    for (rel, code, message, lmsg), ranges in instance_seen.items():
+        stats["instance_groups"] += 1
+        dup = [x for x, n in collections.Counter(ranges).items() if n > 1]
+        if not dup or code == "CS0014":         # CS0014 keys its findings by the VALUE, not by the node
+            continue
+        name = tick(lmsg)
+        what, cands = instance_candidates(code, message, name, spans[rel], info_base["curve"])
+        for (s, e) in dup:
+            here = {"kind": "x", "start": s, "end": e}
+            d = def_of(here, spans[rel])
+            missing = [(c["start"], c["end"]) for c in cands if (d is None or inside(c, d)) and (c["start"], c["end"]) not in ranges]
+            if missing:
+                src = src_of.get(rel, b"")
+                fails.append({"clause": "construct-instance", "code": code, "message": message[:200], "style": "primary",
+                              "label": {"start": s, "end": e, "msg": lmsg}, "text": src[s:e].decode(errors="replace")[:200],
+                              "why": "%d findings `%s` are anchored at the same %s %d..%d while %s of the same definition has none: "
+                                     "%s = %s" % (collections.Counter(ranges)[(s, e)], code, what, s, e, what, missing[:3],
+                                                  [src[a:b].decode(errors="replace")[:60] for a, b in missing[:3]])})
+    return fails
 
 
 def run_cli_project(cli, p):
@@ -1037,12 +1256,12 @@ def judge_sarif_result_directly(p, t, stats):
                 continue
             st, en, unc = lex(src)
             if not ((s in st and e in en) or (s == e and (s in st or s == len(src) or (en and s == max(en))))
-                    or (unc is not None and (s, e) == (unc, unc + 2))):
+                    or (unc is not None and (s, e) == (unc, unc + 2)) or (t[1] == "T2008" and empty_parens(src, s, e, st, en))):
                 fails.append(dict(where, clause="token-boundary", text=src[s:e].decode(errors="replace")[:200],
                                   why="the SARIF region does not start at the start and end at the end of a token of the original text"))
                 continue
             if rel in spans and not any(d.get("support") and d["start"] <= s and e <= d["end"] for d in spans[rel] if d["kind"] == "def"):
-                pred = allowed_ranges(rep, {"msg": msg}, spans[rel], src, primary)
+                pred = allowed_ranges(rep, {"msg": msg}, spans[rel], src, primary, {"curve": p.get("curve", "BN254"), "rel": rel})
                 if pred is not None and (s, e) not in pred[1]:
                     fails.append(dict(where, clause="construct", text=src[s:e].decode(errors="replace")[:200],
                                       why="text under the displayed %s location is not the %s" % ("primary" if primary else "secondary", pred[0])))
@@ -1191,7 +1410,9 @@ def run(ctx, proofs):
         batch = []
         for _ in range(min(400, nproj - done)):
             p = c04gen.gen_project(ctx.rng, done)
-            if p["style"] in ("multibyte", "multibyte_crlf", "dense", "mixed") and ctx.rng.random() < 0.15:
+            if (p["style"] in ("multibyte", "multibyte_crlf", "dense", "mixed") and ctx.rng.random() < 0.15) or \
+                    (any(f in ("instances-sign", "instances-n2b", "instances-b2n", "instances-lt_inputs") for f in p["features"])
+                     and ctx.rng.random() < 0.4):
                 p["curve"] = ctx.rng.choice(["BLS12_381", "GOLDILOCKS"])
                 p["cli_args"] = ["--curve", p["curve"]]
             p["origin"] = "generated #%d" % done
@@ -1220,6 +1441,23 @@ def run(ctx, proofs):
                                  "FileLibrary, sarif_conversion.rs and the terminal renderer",
                        "input": {"codespan_case": x["case"], "text": x.get("text")}, "model": x["model"], "impl": x["impl"],
                        "disagreements": len(cs_dis)}, no_input=True)
+
+    # the C04_liftfull_* theorems speak about Model.LiftFull: its tie to the real into_cfg is run here in reduced form
+    # (single-file generated sources of this run as extra inputs); the helper reports disagreements itself, with input
+    from props import liftfull_engine
+    lf_extra = []
+    for c in ([sample] if sample else []) + corpus[:10]:
+        if len(c["files"]) == 1 and "main.circom" in c["files"]:
+            t = c["files"]["main.circom"]
+            t = t.decode("utf-8", "replace") if isinstance(t, bytes) else t
+            if t.isascii():
+                lf_extra.append((c.get("origin"), t))
+    try:
+        ctx.coverage["liftfull_tie"] = liftfull_engine.require_tie(common, ctx, "C04", extra_sources=lf_extra)
+    except Exception as ex:          # the stage is another agent's machinery: its crash is reported, not hidden
+        ctx.coverage["liftfull_tie"] = {"crashed": repr(ex)[:400]}
+        ctx.violation("stage liftfull could not be run inside the check of C04: %r" % (ex,),
+                      {"broken": "liftfull_engine.require_tie", "error": repr(ex)[:2000]}, no_input=True)
 
     listed = {k["id"] for k in ctx.known}
     shown = 0
@@ -1302,7 +1540,7 @@ def run(ctx, proofs):
             "labels_evaluated": {k[12:]: v for k, v in sorted(stats.items()) if k.startswith("anchor_eval:")},
             "labels_at_a_statement_of_the_ssa_cfg": {k[12:]: v for k, v in sorted(stats.items()) if k.startswith("anchor_stmt:")},
             "projects_evaluated": stats["anchor_projects_evaluated"],
-            "projects_skipped_duplicate_definition": stats["anchor_projects_skipped_duplicate_definition"],
+            "projects_with_a_duplicated_name_evaluated": stats["anchor_projects_with_duplicate_definition_evaluated"],
             "note": "hypothesis `nodes_of ctor` subset of `cfg_stmt_metas c'` of C04_labels_wellformed_through_desugaring_and_ssa / "
                     "_lifting_and_ssa, evaluated on every label of every in-process report against the statement nodes of the SSA "
                     "cfgs the real into_cfg + into_ssa build for the project; a label of a claimed (code, role) outside that set "
@@ -1320,12 +1558,34 @@ def run(ctx, proofs):
                     "scalars over {a, LF, CR, e-acute}, fixed edge cases (empty, only newlines, no final newline, empty last "
                     "line, lone CR, BOM, U+2028, 4-byte scalars), random texts over 18 scalars, windows of generated files"},
         "failures_by_clause": dict(by_clause),
-        "open_statements": ["meta provenance through IR LIFTING (lift_metas_from_ast: every node of the CFG built by into_cfg carries the "
-                            "meta of the AST node it comes from) is hypothesis 3 of C04_labels_wellformed_through_desugaring_and_ssa: the "
-                            "lifting mirror Model.Lift works on skeletons without metas (C04_lift_nodes_are_source_nodes is all it says); "
-                            "observed node by node by the provenance clause. The desugarer's part (C04_desugar_metas_from_input) and the SSA "
-                            "construction's part (C04_ssa_blocks_from_input / C04_ssa_metas_from_input, statement metas; the IR mirror has no "
-                            "expression metas) are proved",
+        "one_file_hypothesis": {"reports_evaluated": stats["one_file_hypothesis_evaluated"], "unmet": stats["one_file_hypothesis_unmet"],
+                                "note": "hypothesis of C04_label_range_and_file_of_one_node (the nodes handed to one constructor call "
+                                        "lie in one file), evaluated on its visible part: all labels of one report of a guarded "
+                                        "constructor name one file; unmet = failure with the project as input"},
+        "instance_level_construct_clause": {
+            "codes": sorted(INSTANCE_CODES), "groups_checked_for_duplicate_anchor": stats["instance_groups"],
+            "labels_on_an_empty_parameter_list": stats["labels_on_an_empty_parameter_list"],
+            "note": "for these codes no other property compares locations: the primary label must be a node the generator recorded "
+                    "as offending (outermost comparison / overflowing arithmetic, Num2Bits/Bits2Num whose size is not a constant "
+                    "below the prime's bit size of the curve in use, LessThan/Num2Bits input of a value the definition does not "
+                    "bound, non-constant top-level divisor of a `<--`, instantiation with an unread output), and two findings "
+                    "anchored at one node while another recorded offending node of the definition has none is a failure"},
+        "label_site_scan": {"files_scanned": ctx.coverage.get("label_site_files_scanned"),
+                            "files_outside_the_fixed_list_with_sites": ctx.coverage.get("label_site_files_outside_the_fixed_list_with_sites")},
+        "codes_never_generated": {"P1001": "ReportCode::NoMainFoundInProject has no producer in /repo (grep: only report_code.rs names it)"},
+        "open_statements": ["meta provenance through IR LIFTING is PROVED for STATEMENT metas about the content-carrying mirror Model.LiftFull "
+                            "(C04_liftfull_stmt_metas_from_ast, C04_liftfull_stmt_metas_in_body; used by "
+                            "C04_labels_wellformed_through_desugaring_lifting_and_ssa; content level: C13_liftfull_content_provenance) and that "
+                            "mirror is tied to the real into_cfg by the text-equal comparison of stage liftfull, which this check now runs "
+                            "itself in reduced form (coverage.liftfull_tie) and `./check C13` in full; OPEN: EXPRESSION metas (labels anchored "
+                            "at an expression, a parameter list or a definition: CS0003/4/9/10/14/15/16/18, CS0002/7/12, T2008) have no "
+                            "end-to-end theorem - the IR mirror of SSA keeps statement metas only - and are covered by the provenance clause "
+                            "of the oracle node by node and by the instance-level construct clause. The desugarer's part "
+                            "(C04_desugar_metas_from_input) and the SSA construction's part (C04_ssa_blocks_from_input / "
+                            "C04_ssa_metas_from_input, statement metas) are proved",
+                            "no theorem says that the FILE id of a label is the file that holds the construct (only: the file id of some "
+                            "node handed to the constructor) nor that the text under the label IS the construct: both are oracle clauses "
+                            "(file-read / construct), evaluated on every label",
                             "parser_ranges_wellformed (LALRPOP @L/@R) stays a hypothesis of every inheritance theorem; the only label whose "
                             "validity is proved outright is the unclosed-comment one (C04_unclosed_comment_label_valid)"],
         "samples": [{"origin": sample.get("origin"), "style": sample.get("style"),
@@ -1356,6 +1616,9 @@ def run(ctx, proofs):
 def replay(ctx, rep):
     harness = common.build_harness("locations")
     cli = common.build_cli()
+    if rep.get("liftfull_src"):
+        from props import liftfull_engine
+        return liftfull_engine.replay_tie(common, rep)
     inp = rep.get("input")
     if not inp:
         print("replay names a broken obligation, not an input:", rep.get("broken"))
